@@ -72,6 +72,16 @@ def cosine_similarity(
     y_pred: pd.DataFrame | pd.Series,
     y_true: pd.DataFrame | pd.Series,
 ) -> float:
-    """Calculate root mean square error between model and data."""
-    norm = np.linalg.norm
-    return cast(float, -np.sum(norm(y_pred, 2) * norm(y_true, 2)))
+    """Calculate negative cosine similarity between model and data.
+
+    -1 if both point in the same direction, independent of their magnitudes.
+    """
+    # Align both inputs like the other losses do (y_pred - y_true)
+    dot = np.nansum(np.asarray(y_pred * y_true, dtype=float))
+    norm_pred = np.sqrt(
+        np.nansum(np.square(np.asarray(y_pred + 0 * y_true, dtype=float)))
+    )
+    norm_true = np.sqrt(
+        np.nansum(np.square(np.asarray(y_true + 0 * y_pred, dtype=float)))
+    )
+    return cast(float, -dot / (norm_pred * norm_true))
